@@ -70,6 +70,7 @@ pub fn generate(rng: &mut Rng, tier: Tier, stats: &mut GenStats) -> Scenario {
         walkers,
         mutations: vec![],
         schedule,
+        triggers: vec![],
     }
 }
 
